@@ -304,6 +304,19 @@ theorem route_exactly_once (env0 : Env) (gets posts : Routes) (pre : List Op)
   · simp [hg]
   · simp [hg, respOf]
 
+/-- **params_exactly_by_method**: whatever travels in the other place — a body on a GET, a query
+    string on the URL of a POST — the handler of a registered monadic route is called with exactly
+    the query parameters (GET) / exactly the form parameters (POST). -/
+theorem params_exactly_by_method (env0 : Env) (gets posts : Routes) (pre : List Op)
+    (m : Method) (p : Path) (query form : Params) (f : Fn)
+    (hreg : (Routes.of gets posts m).lookup p = some (.fn f)) (har : f.arity = 1)
+    (hup : pre.any isWebc = false) (hg : (handlerNow env0 pre f).arity = 1) :
+    (requestRaw (after env0 gets posts pre) m p query form).2 =
+      [((handlerNow env0 pre f).id, match m with | .get => query | .post => form)] := by
+  unfold requestRaw
+  rw [route_exactly_once env0 gets posts pre m p _ f hreg har hup]
+  cases m <;> simp [hg, paramsFor]
+
 /-- **failure_contained**: a request whose handler raises is answered 400, the handler body ran
     once, and the server is left exactly as it was: whatever follows is served as if the failing
     request had not happened. -/
